@@ -292,55 +292,5 @@ pub mod wiring {
         assert!(pulls == 3, "one source frame per output frame");
         kani::cover!(true, "end");
     }
-
-    /// std build: the square root is the correctly rounded one (CBMC models sqrt exactly)
-    #[cfg(feature = "thorough")]
-    #[kani::proof]
-    pub fn std_sqrt_contract_f32() {
-        let x: f32 = kani::any();
-        kani::assume(x >= 0.0 && x <= 1.0e30);
-        let r = x.sample_sqrt();
-        assert!(r >= 0.0 && !r.is_nan());
-        // r is within half an ulp: (r-)^2 <= x <= (r+)^2 for the neighbours of r
-        let lo = if r > 0.0 { f32::from_bits(r.to_bits() - 1) } else { 0.0 };
-        let hi = f32::from_bits(r.to_bits() + 1);
-        assert!((lo as f64) * (lo as f64) <= x as f64 && x as f64 <= (hi as f64) * (hi as f64));
-        kani::cover!(true, "end");
-    }
 }
 
-// ------------------------------------------------------------------------------------------
-// general floats, bounded history from the zero state (thorough)
-// ------------------------------------------------------------------------------------------
-#[cfg(feature = "thorough")]
-pub mod history {
-    use super::*;
-    /// three arbitrary finite pushes into a window of 2: not NaN, >= 0, close to the f64 recomputation
-    #[kani::proof]
-    #[kani::unwind(6)]
-    pub fn three_pushes_f32_n2() {
-        let xs: [f32; 3] = [kani::any(), kani::any(), kani::any()];
-        for x in xs.iter() {
-            kani::assume(x.is_finite() && x.abs() <= 1.0e15);
-        }
-        let mut rms: Rms<f32, [f32; 2]> = Rms::new(Fixed::from([0.0f32; 2]));
-        let mut r = 0.0f32;
-        for i in 0..3 {
-            r = rms.next_squared(xs[i]);
-            assert!(r >= 0.0 && !r.is_nan());
-        }
-        let exact = ((xs[1] as f64) * (xs[1] as f64) + (xs[2] as f64) * (xs[2] as f64)) / 2.0;
-        let biggest = {
-            let a = (xs[0] as f64) * (xs[0] as f64);
-            let b = (xs[1] as f64) * (xs[1] as f64);
-            let c = (xs[2] as f64) * (xs[2] as f64);
-            if a > b { if a > c { a } else { c } } else if b > c { b } else { c }
-        };
-        // each f32 operation contributes a relative error of at most 2^-24 on intermediate
-        // values no larger than the sum of all three squares
-        let tol = biggest * 3.0 * 8.0 * 5.960464477539063e-8 + 1.0e-37;
-        let err = if (r as f64) > exact { r as f64 - exact } else { exact - r as f64 };
-        assert!(err <= tol, "within a rigorous rounding bound of the true mean square");
-        kani::cover!(true, "end");
-    }
-}
